@@ -391,6 +391,39 @@ def rules(rep, m):
                     if cc.startswith("!") and any(re.search(p, cc) for p in pats) and \
                             any(y["kind"] == "ReturnStmt" for y in walk(kids(s_)[1])):
                         dom = True
+            # the pool's rollback: the record of a process exists iff it holds units (R-C07-3 / R-C07-5), so a positive
+            # amount read through cmb_resourcepool_held_by_process for the same process at entry stands for membership
+            if not dom and fn == "cmi_hashheap_item":
+                for cc in inv.dominating_conditions(cx, f, c):
+                    mm = re.fullmatch(r"!\((\w+) == 0\)|\(?(\w+) (?:>|!=) 0\)?", cc)
+                    nm = mm and (mm.group(1) or mm.group(2))
+                    if not nm:
+                        continue
+                    # the amount local: 0 unless set under a membership test for this heap and key (the inlined accessor)
+                    decl = [d for d in walk(f.body) if d["kind"] == "VarDecl" and d.get("name") == nm]
+                    if len(decl) == 1 and kids(decl[0]) and int_value(strip(kids(decl[0])[0], casts=True)) == 0:
+                        sets = [x for x in walk(f.body) if x["kind"] == "BinaryOperator" and x.get("opcode") == "=" and
+                                strip(kids(x)[0], casts=True)["kind"] == "DeclRefExpr" and
+                                strip(kids(x)[0], casts=True)["ref"].get("id") == decl[0].get("id")]
+                        others = [x for x in walk(f.body) if x["kind"] in ("CompoundAssignOperator", "UnaryOperator") and
+                                  x.get("opcode") not in ("!", "-", "~", "*") and kids(x) and
+                                  strip(kids(x)[0], casts=True)["kind"] == "DeclRefExpr" and
+                                  strip(kids(x)[0], casts=True)["ref"].get("id") == decl[0].get("id")]
+                        if sets and not others and all(
+                                any(not c2.startswith("!") and any(re.search(p, c2) for p in pats)
+                                    for c2 in inv.dominating_conditions(cx, f, x)) for x in sets):
+                            dom = True
+                            r7.notes.append("%s -> %s: dominated by %s, an amount that is only non-zero for a queued key" %
+                                            (f.name, fn, cc))
+                    for d in walk(f.body):
+                        if d["kind"] == "VarDecl" and d.get("name") == nm and kids(d) and \
+                                strip(kids(d)[0], casts=True)["kind"] == "CallExpr" and \
+                                callee_ref(strip(kids(d)[0], casts=True)) == "cmb_resourcepool_held_by_process":
+                            call = strip(kids(d)[0], casts=True)
+                            pool, proc = cx.canon(kids(call)[1]), cx.canon(kids(call)[2])
+                            if H == "&%s->holders" % pool and K == proc:
+                                dom = True
+                                r7.notes.append("%s -> %s: dominated by %s, the amount held at entry" % (f.name, fn, cc))
             r7.instance("%s: %s(%s, %s) dominated=%s" % (f.name, fn, H, K, dom))
             if dom:
                 r7.ok()
